@@ -88,6 +88,26 @@ type psFrame struct {
 	kind   string
 	ancRec bool // an enclosing activation has a recovering deferred closure
 	inDef  bool // runs as (part of) a deferred call
+	stack  *psFnStack // functions active on this path's call stack (recursion guard for inlining)
+}
+
+// psFnStack is the immutable list of functions whose activations enclose a frame.
+type psFnStack struct {
+	fn   *ssa.Function
+	next *psFnStack
+}
+
+// active reports whether fn is already being executed on the frame's call stack: a recursive call is unrolled
+// once (like a loop under the loop bound) and a path that recurses deeper is cut, otherwise every level multiplies
+// the paths up to the depth bound.
+func (f *psFrame) active(fn *ssa.Function) int {
+	n := 0
+	for s := f.stack; s != nil; s = s.next {
+		if s.fn == fn {
+			n++
+		}
+	}
+	return n
 }
 
 func (ps *PathSum) canRecover(f *psFrame) bool {
@@ -532,6 +552,11 @@ func (ps *PathSum) newFrame(fn *ssa.Function, args, binds []string, kind string,
 	}
 	nf := &psFrame{fn: fn, id: ps.nid, vals: map[ssa.Value]string{}, block: fn.Blocks[0], kind: kind, depth: depth, visits: map[*ssa.BasicBlock]int{}, ancRec: anc}
 	nf.inDef = kind == "deferred" || (parent != nil && parent.inDef)
+	if parent != nil {
+		nf.stack = &psFnStack{fn: fn, next: parent.stack}
+	} else {
+		nf.stack = &psFnStack{fn: fn}
+	}
 	for i, p := range fn.Params {
 		if i < len(args) {
 			nf.vals[p] = args[i]
